@@ -38,7 +38,7 @@ def make_case(seed, index, tier):
     rng = random.Random('%s/%s/c14' % (seed, index))
     tickers = []
     for number in range(rng.randint(1, 4)):
-        period = rng.choice(PERIODS) if rng.random() < 0.95 else -rng.choice([0.5, 1])
+        period = rng.choice(PERIODS) if rng.random() < 0.95 else -rng.choice([0.5, 1, 1e-17, 5e-324])
         durations = []
         for _ in range(rng.randint(1, 12)):
             roll = rng.random()
